@@ -404,8 +404,23 @@ class SelWorld:
             if isinstance(r, Failure) and isinstance(r.value, (RuntimeError, TypeError, AttributeError, LookupError, AssertionError,
                                                                   NameError, ArithmeticError)):
                 internal.append("connect() of %s failed with %s: %s" % (p, type(r.value).__name__, str(r.value)[:80]))
+        # the link both connect() calls returned stays what they returned: with nothing else happening for three negotiation
+        # time-outs (every timer that is due fires) it is still up at both ends
+        stays = True
+        ls, lr = self.result_link("S"), self.result_link("R")
+        if ls in self.kinds and ls == lr and self.state_of(ls, "S") == "records" and self.state_of(ls, "R") == "records":
+            t0 = reactor.seconds()
+            for _ in range(2000):
+                fut = [dc for dc in reactor.future() if dc.getTime() <= t0 + 200.0]
+                if not fut:
+                    break
+                try:
+                    reactor.run_call(fut[0])
+                except Exception as e:
+                    internal.append("timer after selection: %s: %s" % (type(e).__name__, str(e)[:80]))
+            stays = self.state_of(ls, "S") == "records" and self.state_of(ls, "R") == "records"
         log.removeObserver(self.logged)
-        rec = {"tid": tid, "honestDue": bool(getattr(self, "honest_due", False)), "l": {}, "startedS": "S" in self.started, "startedR": "R" in self.started, "resultS": self.result_link("S"), "resultR": self.result_link("R"),
+        rec = {"tid": tid, "selectedStays": stays, "honestDue": bool(getattr(self, "honest_due", False)), "l": {}, "startedS": "S" in self.started, "startedR": "R" in self.started, "resultS": self.result_link("S"), "resultR": self.result_link("R"),
                "deadlineS": self.deadline["S"], "deadlineR": self.deadline["R"], "internal": internal,
                "resultTime": self.result_time}
         for l, k in self.kinds.items():
